@@ -32,8 +32,8 @@ PROP = dict(
                  "(harness/common/ref_utf.h, audited against python codecs by C08) are right",
                  "texts are NUL-free and, outside the bom part, never start with FF FE, FE FF or EF BB BF (such files are BOM files by design)",
                  "all reading is done through fresh File / TextFile objects after the writer was closed (a File opened for writing is not a documented reader)",
-                 "temporary files live only under $VF_TMPDIR/<pid>/ (one file system): the cross-device branch of Directory::move (copy + remove after EXDEV) is "
-                 "not exercised by the registered check; its copy loop is the same Directory::copy that is exercised (setting $VF_XDEV_DIR to a directory on "
-                 "another file system by hand makes copy/move ops with bit 2 target it; content only is checked there)",
+                 "temporary files live under $VF_TMPDIR/<pid>/; when /dev/shm is a different file system than the build directory the driver also passes "
+                 "$VF_XDEV_DIR=/dev/shm/vf_xdev_<pid> and copy/move ops with bit 2 target a file there (cross-device branch of Directory::move: copy + remove "
+                 "after EXDEV); only the content is judged there, not move's return value",
                  "UTF-16 files have an even number of bytes after the BOM and well-formed surrogate pairs"],
 )
